@@ -474,13 +474,22 @@ func runProperty(P *Prog, prop, tier string, seed int, verif, outDir string) *pr
 	}
 	sort.Strings(fnames)
 	res.nfuncs = len(fnames)
-	tb := sortedKeys(trusted)
+	tb := append([]string{}, sortedKeys(trusted)...)
 	for _, u := range sortedKeys(unmodelled) {
 		tb = append(tb, "unmodelled external call (havoc): "+u)
 	}
 	assumptions := append([]string{}, generalAssumptions...)
 	for _, n := range sortedKeys(notes) {
 		assumptions = append(assumptions, "note: "+n)
+	}
+	if fnames == nil {
+		fnames = []string{}
+	}
+	if knownMatched == nil {
+		knownMatched = []string{}
+	}
+	if smokeFailed == nil {
+		smokeFailed = []string{}
 	}
 	cov := map[string]any{
 		"obligations": res.total - res.known, "discharged": res.discharged, "obligations_recorded_as_known_findings": res.known,
